@@ -97,8 +97,9 @@ def txtRoundTrip (kind mode : String) (dt : Nat) : P (Except String (Container Ã
     let v â† ratList
     let lines := expWrite pr v
     let r := expRead rd lines
+    -- an empty file gives a vector without array (fix 80716f0b5)
     pure (.ok (dvLayout (encList dt v), lines,
-      { scalarIndex := [r.length], scalarDt := [], elements := [encList dt r], indices := [] }))
+      { scalarIndex := [r.length], scalarDt := [], elements := if r.isEmpty then [] else [encList dt r], indices := [] }))
   | "dvb", "mtx" =>
     let v â† ratList
     let lines := dvMtxWrite pr v
@@ -109,19 +110,16 @@ def txtRoundTrip (kind mode : String) (dt : Nat) : P (Except String (Container Ã
     let v â† ratList
     let lines := expWrite pr v
     let r := expRead rd lines
+    -- an empty file gives a vector without array (fix 35c268b8a)
     pure (.ok (dvbLayout 2 (encList dt v), lines,
-      { scalarIndex := [r.length / 2], scalarDt := [], elements := [encList dt r], indices := [] }))
+      { scalarIndex := [r.length / 2], scalarDt := [], elements := if r.isEmpty then [] else [encList dt r], indices := [] }))
   | "sv", "mtx" =>
     let n â† nat; let _ â† nat; let idx â† natList; let v â† ratList
     let lines := svMtxWrite pr n idx v
     match svMtxRead rd lines with
     | none => pure (.error "ABORT")
     | some (rn, ri, rv) =>
-      -- `SparseVector(rows, val, ind, false)` from two size-0 vectors owns two size-0 arrays
-      if ri.isEmpty then
-        pure (.ok (svLayout n idx (encList dt v), lines,
-          { scalarIndex := [rn, 0, 0, min rn 1000, 1], scalarDt := [], elements := [[]], indices := [[]] }))
-      else
+      -- without entries the reader builds `SparseVector(rows)` (fix 977a6be87): `svLayout` with no index
       pure (.ok (svLayout n idx (encList dt v), lines, svLayout rn ri (encList dt rv)))
   | "dm", "mtx" =>
     let r â† nat; let c â† nat; let v â† ratList
